@@ -7,6 +7,7 @@ import RzilVerif.Model.DriverSem
 import RzilVerif.Model.DriverMeta
 import RzilVerif.Model.Operands
 import RzilVerif.Model.DriverLayout
+import RzilVerif.Model.DriverHeap
 open Rzil
 
 def dispatch (st : DState) (line : String) : DState × String :=
@@ -39,7 +40,10 @@ def dispatch (st : DState) (line : String) : DState × String :=
                   | none =>
                     match handleLayout xs with
                     | some r => (st, toString r)
-                    | none => (st, "(error bad-request)")
+                    | none =>
+                      match handleHeap xs with
+                      | some r => (st, toString r)
+                      | none => (st, "(error bad-request)")
   | some _ => (st, "(error bad-request)")
 
 partial def loop (hin : IO.FS.Stream) (hout : IO.FS.Stream) (st : DState) : IO Unit := do
